@@ -215,6 +215,8 @@ func randReader(r *plan.Rng, t string, ndocs int, faulty bool) *plan.Reader {
 				d.Err = "eof"
 			case 3:
 				d.Scribble = true
+			case 4:
+				d.Reenter = true
 			}
 		}
 		rd.Del = append(rd.Del, d)
@@ -262,6 +264,12 @@ func encoderSession(r *plan.Rng, id string, faulty bool) plan.Session {
 	nw := plan.Step{Op: "enc_new", H: "e"}
 	if faulty && r.Chance(1, 3) {
 		nw.Writer = &plan.Writer{FailAt: r.Range(1, 3), Short: r.Bool()}
+	}
+	if r.Chance(1, 5) {
+		if nw.Writer == nil {
+			nw.Writer = &plan.Writer{}
+		}
+		nw.Writer.Reenter = true
 	}
 	if r.Chance(1, 3) {
 		nw.S1 = prefixes[r.Intn(len(prefixes))]
